@@ -21,7 +21,7 @@ type ReplayInfo struct {
 
 // writeReplay writes the replay file of a failed obligation and tries to confirm it on the real code.
 func writeReplay(s *Session, prop string, g *OblGroup) ReplayInfo {
-	dir := filepath.Join(verifDir, "out", "replay")
+	dir := filepath.Join(outDir(), "replay")
 	os.MkdirAll(dir, 0o755)
 	p := filepath.Join(dir, sanitize(g.Name)+".json")
 	var fo *Obligation
